@@ -74,7 +74,7 @@ pub mod tok_ax {
         ensures #[trigger] tok(a).len() > 0;
 }
 pub use tok_ax::tok;
-broadcast use {tok_ax::tok_injective, tok_ax::tok_nonempty};
+broadcast use {tok_ax::tok_injective, tok_ax::tok_nonempty, collect_ax::collect_result, vstd::std_specs::iter::group_iter_axioms};
 
 //@item src/api/page_token.rs struct PageToken
 impl PageToken {
@@ -242,6 +242,36 @@ pub open spec fn mod_pair_ok(now: int, id: Seq<char>, secs: i32, r: Result<Deadl
 //@ region /let ack_id = parse_ack_id\(ack_id\)\?;/ /^\s*Ok\(modification\)\s*$/ as fn deadline_mod_pair(now: Instant, ack_id: &String, seconds: &i32) -> (r: Result<DeadlineModification, Status>)
 //@ requires epoch().v() <= now.v() <= now_max()
 //@ ensures[C05] mod_pair_ok(now.v(), ack_id@, *seconds, r)
+//@end
+
+// the whole function: zip / map / collect::<Result<Vec<_>, Status>> plumbing around the per-pair body (all-or-nothing)
+pub mod collect_ax {
+    use super::*;
+    /// what `collect::<Result<Vec<T>, E>>()` makes of the items an iterator yields: all of them unwrapped, in order, or
+    /// the first error
+    pub open spec fn all_or_nothing<T, E>(items: Seq<Result<T, E>>, s: Result<Vec<T>, E>) -> bool {
+        match s {
+            Ok(v) => v@.len() == items.len() && forall|i: int| #![trigger v@[i]] #![trigger items[i]] 0 <= i < items.len() ==> items[i] == Ok::<T, E>(v@[i]),
+            Err(e) => exists|i: int| 0 <= i < items.len() && #[trigger] items[i] == Err::<T, E>(e),
+        }
+    }
+    // TRUSTED (A-STD): `impl FromIterator<Result<A, E>> for Result<V, E>` of std (vstd specifies `collect` through
+    // `FromIteratorSpec::from_iter_ensures`, which it defines for Vec only)
+    pub broadcast axiom fn collect_result<T, E>(items: Seq<Result<T, E>>, s: Result<Vec<T>, E>)
+        ensures #[trigger] <Result<Vec<T>, E> as vstd::std_specs::iter::FromIteratorSpec<Result<T, E>>>::from_iter_ensures(items, s) ==> all_or_nothing(items, s);
+}
+pub use collect_ax::all_or_nothing;
+//@fn src/api/parser.rs parse_deadline_modifications tags=C05
+//@ ret r
+//@ requires epoch().v() <= now.v() <= now_max()
+//@ # C05: one modification per (ack id, seconds) pair, in request order, each as the per-pair rule says ...
+//@ ensures[C05] (match r { Ok(v) => v@.len() == imin(ack_ids@.len() as int, modify_deadline_seconds@.len() as int) && forall|i: int| #![trigger ack_ids@[i]] #![trigger v@[i]] 0 <= i < v@.len() ==> mod_pair_ok(now.v(), ack_ids@[i]@, modify_deadline_seconds@[i], Ok::<DeadlineModification, Status>(v@[i])), Err(_) => true })
+//@ # ... all-or-nothing: the request yields modifications only if every pair is well-formed; one malformed ack id or
+//@ # negative seconds value fails the whole request, and the only failure is INVALID_ARGUMENT
+//@ ensures[C05,C17] (match r { Ok(v) => forall|i: int| #![trigger v@[i]] 0 <= i < v@.len() ==> mod_pair_ok(now.v(), ack_ids@[i]@, modify_deadline_seconds@[i], Ok::<DeadlineModification, Status>(v@[i])) && parsed::<u64>(ack_ids@[i]@).is_some() && modify_deadline_seconds@[i] >= 0, Err(_) => true })
+//@ ensures[C05,C17] r.is_err() ==> err_code(r) == Some(Code::InvalidArgument)
+//@ closure 1 ret m: Result<DeadlineModification, Status>
+//@ closure 1 ensures mod_pair_ok(now.v(), $1.0@, *$1.1, m)
 //@end
 
 // ======================================================================================
